@@ -55,8 +55,10 @@ var Locs = []string{
 	"global", "math.attr", "math.new", "sys.path.append", "sys.path.rebind", "sys.argv.inplace", "sys.argv.rebind",
 	"builtins.new", "builtins.len", "srcmod.val", "srcmod.list", "srcmod.dict", "class.attr", "func.default",
 	"type.int", "type.list", "type.exc", "os.environ", "string.attr", "time.attr", "sys.new", "print.capture", "nested.cfg",
-	"const.bytes", "exc.syntax", "modimpl.conf",
+	"const.bytes", "exc.syntax", "modimpl.conf", "exc.eof",
 }
+
+var eofSources = []string{"x = (\n", "if x:\n", "def f(a,\n", "s = \"\"\"abc\n", "v = [1,\n  2,\n", "class C:\n"}
 
 // BadSources fail in the compiler proper (after parsing), each at its own line.
 var BadSources = []string{
@@ -76,6 +78,9 @@ func writeStmt(loc string, v int) string {
 		// a SyntaxError kept by the program and inspected later: the instance
 		// (with the file name and line it carries) belongs to this compilation
 		return fmt.Sprintf("try:\n    compile(%q, \"f%d\" + CT + \".py\", \"exec\")\n    held = None\nexcept SyntaxError as _se:\n    held = _se", BadSources[v%len(BadSources)], v)
+	case "exc.eof":
+		// the same with truncated input (the error is made at end of input)
+		return fmt.Sprintf("try:\n    compile(%q, \"e%d\" + CT + \".py\", \"exec\")\n    held2 = None\nexcept SyntaxError as _se:\n    held2 = _se", eofSources[v%len(eofSources)], v)
 	case "modimpl.conf":
 		// a module the embedder initialised from source, per context
 		return "import ctxconf\nctxconf.note = " + val
@@ -186,12 +191,15 @@ func readExpr(loc string) (prelude, expr string) {
 		return "", "exc_loc(held)"
 	case "modimpl.conf":
 		return "import ctxconf", "(ctxconf.WORKER, ctxconf.note)"
+	case "exc.eof":
+		return "", "exc_loc(held2)[0]"
 	}
 	return "", "None"
 }
 
 const progPrelude = `from simlog import log, exc_name, exc_loc
 held = None
+held2 = None
 import sys
 CT = sys.path[0][-1:]
 BT = {"0": b"0", "1": b"1", "2": b"2", "3": b"3"}.get(CT, b"x")
